@@ -58,7 +58,7 @@ def server_hello_xml(case):
 
 # ---------- implementation ----------
 def run_impl(case, bound=3.0):
-    from harness import fakesession as fs
+    from harness import fakesession_wire as fs
     from ncclient import manager
     from ncclient.transport.errors import SessionError, SessionCloseError, TransportError
     dparams = {'name': case['profile']}
